@@ -74,6 +74,7 @@ class Ctx:
         self.facts = 0
         self.assumed = []
         self.scoped = 0
+        self.imprecise = None
 
     def start_sym(self, timeout_ms=None):
         self.mode = "sym"
@@ -215,7 +216,8 @@ class Ctx:
                 else:
                     m = self.model_inputs(self.solver.model()) if r == z3.sat else None
                     ob = Oblig(name, "refuted" if r == z3.sat else "unknown", model=m,
-                               secs=time.time() - t0, path=self.paths, detail="condition is literally False")
+                               secs=time.time() - t0, path=self.paths,
+                               detail=("imprecise: " + self.imprecise + "; " if getattr(self, "imprecise", None) else "") + "condition is literally False")
             self.obligs.append(ob)
             return ob
         self.solver.push()
@@ -226,7 +228,7 @@ class Ctx:
             ob = Oblig(name, "proved", secs=secs, path=self.paths)
         elif r == z3.sat:
             ob = Oblig(name, "refuted", model=self.model_inputs(self.solver.model()), secs=secs,
-                       path=self.paths)
+                       path=self.paths, detail=("imprecise: " + self.imprecise) if getattr(self, "imprecise", None) else "")
         else:
             smt2 = None
             try:
